@@ -62,6 +62,7 @@ ObsInit == [
     bmsgs    |-> EmptyFn,      \* broker message token -> [k (first transmission), qos]
     q2done   |-> {},           \* broker QoS 2 messages whose exchange completed (PUBCOMP received)
     q1acked  |-> {},           \* broker QoS 1 messages acknowledged by the client
+    hostile  |-> FALSE,        \* the broker sent something a conformant broker would not (raw bytes, a SUBACK with wrong codes)
     relsd    |-> {},           \* QoS 2 requests whose successful PUBREC the client has consumed (hook: dispatch / wait)
     subOk    |-> FALSE,        \* a subscription succeeded since start / last session_expired report
     owed     |-> 0,            \* session_expired reports owed and not yet delivered
@@ -275,8 +276,13 @@ StepBRecv(o, e) ==
                      !.q2done = IF e.type = "PUBCOMP" THEN o.q2done \cup {cr.bpub[x].msg : x \in {y \in DOMAIN cr.bpub : cr.bpub[y].pid = e.pid /\ cr.bpub[y].qos = 2 /\ cr.bpub[y].state = 1}} ELSE o.q2done,
                      !.q1acked = IF e.type = "PUBACK" THEN o.q1acked \cup {cr.bpub[x].msg : x \in {y \in DOMAIN cr.bpub : cr.bpub[y].pid = e.pid /\ cr.bpub[y].qos = 1}} ELSE o.q1acked]
 
+BadSubAck(o, e) ==
+    /\ e.type \in {"SUBACK", "UNSUBACK"}
+    /\ \/ \E x \in DOMAIN e.codes : e.codes[x] \notin (IF e.type = "SUBACK" THEN SubackCodes ELSE UnsubackCodes)
+       \/ \E i \in DOMAIN o.recv : o.recv[i].k = e.ans /\ o.recv[i].type \in {"SUBSCRIBE", "UNSUBSCRIBE"} /\ o.recv[i].nt # Len(e.codes)
+
 StepBSend(o, e) ==
-    LET o1 == [o EXCEPT !.sent = Append(o.sent, e)]
+    LET o1 == [o EXCEPT !.sent = Append(o.sent, e), !.hostile = o.hostile \/ BadSubAck(o, e)]
         c  == e.c
     IN IF c \notin DOMAIN o.conn THEN o1 ELSE
        LET cr == o.conn[c] IN
@@ -350,6 +356,7 @@ ObsStep(o, e) ==
       [] e.e = "c_pkt"      -> StepPkt(o, e)
       [] e.e = "b_recv"     -> StepBRecv(o, e)
       [] e.e = "b_send"     -> StepBSend(o, e)
+      [] e.e = "b_raw"      -> [o EXCEPT !.hostile = TRUE]
       [] e.e = "h"          -> StepHook(o, e)
       [] e.e = "drain"      -> [o EXCEPT !.drainT = e.t]
       [] OTHER              -> o
@@ -413,6 +420,8 @@ PktClauses(o, e) ==
         earlier == {x \in DOMAIN o.pkts : o.pkts[x].type = "PUBLISH" /\ o.pkts[x].msg = e.msg}
     IN
        (IF e.type = "BAD" THEN {"C17_a_MalformedPacketWritten"} ELSE {})
+    \* C04 / C18: a conformant broker never gives cause for DISCONNECT "malformed packet" / "protocol error"
+    \cup (IF e.type = "DISCONNECT" /\ e.rc \in {129, 130} /\ ~o.hostile THEN {"C04_a_BrokerPacketRejectedAsMalformed"} ELSE {})
     \* C10: CONNECT first, nothing else before a successful CONNACK
     \cup (IF known /\ cr.npkt = 0 /\ e.type # "CONNECT" THEN {"C10_a_FirstPacketNotConnect"} ELSE {})
     \cup (IF known /\ cr.npkt = 0 /\ e.type = "CONNECT" /\ e.dig # o.cfgdig THEN {"C10_a_ConnectDiffersFromConfiguration"} ELSE {})
@@ -568,6 +577,7 @@ ReadClauses(o, e) ==
 
 \* ---- when virtual time has advanced: a PINGREQ that is overdue
 OverdueClauses(o, e) ==
+    (IF o.disc.op # 0 /\ o.disc.doneT < 0 /\ e.t - o.disc.t > 5000 THEN {"C09_c_LaterThan5s"} ELSE {}) \cup
     IF \E c \in DOMAIN o.conn :
           LET cr == o.conn[c]
               base == IF cr.pingBase >= 0 THEN cr.pingBase ELSE cr.tEst
@@ -588,7 +598,7 @@ Viol(o, e) ==
       [] e.e = "stream_close" -> CloseClauses(o, e)
       [] e.e = "resolve"      -> ResolveClauses(o, e)
       [] e.e = "quiesce_end"  -> QuiesceClauses(o, e) \cup OverdueClauses(o, e)
-      [] e.e = "drain"        -> DrainClauses(o, e)
+      [] e.e = "drain"        -> DrainClauses(o, e) \cup OverdueClauses(o, e)
       [] e.e = "end"          -> DrainClauses([o EXCEPT !.terminal = TRUE, !.termOrd = o.nops], e)
       [] e.e \in {"exception", "hang", "terminate"} -> {"C19_e_ExceptionOrHang"}
       [] OTHER                -> {}
